@@ -77,6 +77,18 @@ def run(ctx, model):
                 tr.run_case(ctx, model, lines, pend, "single-fault-sweep", "C10", scn, "10.0.0.1/bp/0", False, faults,
                             [b"\x22" * 8, b"\x33" * 8], rep,
                             check=lambda impl, case, policy=policy, faults=faults: oracle(ctx, impl, case, policy, faults))
+    # the same sweep over a history whose first connection lives inside a `with` block: a transport fault in the body makes
+    # the block end in a CommError; what `__exit__` leaves behind must not confuse the next open() of the same driver
+    repw = [("with", [tr.gen_gm(rng, connected=True), tr.gen_gm(rng, connected=False), tr.gen_gm(rng, connected=True)], False),
+            ("open",), tr.gen_gm(rng, connected=True), ("close",)]
+    for policy in [(True, True, True), (True, False, True)]:
+        scn, _, _ = tr.gen_base(rng, policy=policy, generic=(0, (), b"\x01\x02"))
+        for k in range(0, 12):
+            for kind, how in (("send", "raise"), ("send", "drop"), ("recv", "raise")):
+                faults = {(kind, k): how}
+                tr.run_case(ctx, model, lines, pend, "single-fault-sweep-with", "C10", scn, "10.0.0.1/bp/0", False, faults,
+                            [b"\x22" * 8, b"\x33" * 8], repw,
+                            check=lambda impl, case, policy=policy, faults=faults: oracle(ctx, impl, case, policy, faults))
     run_real_socket(ctx, model)
     tr.run_altered_client(ctx, model, lines, pend, "C10", n=ctx.budget(30, 300))
     ctx.extra["exhaustive_subdomains"] = "every single-fault position (send raises / message lost / receive raises) x 4 target policies of a 7-call representative history"
